@@ -52,6 +52,10 @@ def h_literal() -> Union[bool, str]:
     except JSONPathError:
         accepted = False
     if not valid:
+        # the text between the outer quotes is not ONE string literal; the whole query may still be derivable in another way
+        # (three symbolic characters can close the literal and open another selector: $['','']): outside this obligation
+        whole, _ast, _rp = holes.ref_run(q)
+        assume(whole != "valid")
         return True if not accepted else "invalid literal %r accepted" % (lit,)
     if not accepted:
         return "valid literal %r rejected" % (lit,)
